@@ -106,7 +106,9 @@ def directed_cases():
                                            expected_err=["E:probe_exit0.sh"])))
     # the PROGRAM is named by a string too: a path with a blank, a glob character, an apostrophe, a semicolon runs that very file (genuine
     # defect repaired in round 12: the name was written unquoted and the shell split / expanded it)
-    for i, nm in enumerate(["my probe_exit0.sh", "pro*be_exit0.sh", "a'b_exit0.sh", "x;y_exit0.sh", "sub dir/p r_exit0.sh", "q[1]_exit0.sh"]):
+    # (round 15: C18-H escaped the name twice on the Bash target - only a name with a double quote or a backslash shows it)
+    for i, nm in enumerate(["my probe_exit0.sh", "pro*be_exit0.sh", "a'b_exit0.sh", "x;y_exit0.sh", "sub dir/p r_exit0.sh", "q[1]_exit0.sh",
+                            'pr"obe_exit0.sh', "st\\7_exit0.sh", 'b\\"q_exit0.sh', "end\\_exit0.sh", "#h~_exit0.sh", "a&b|c_exit0.sh"]):
         for captured in (False, True):
             args = ["one", "two words", ""]
             argtxt = ", ".join(gen_strings.go_quote(a) for a in args)
